@@ -21,27 +21,70 @@ ASSUMPTIONS = ["CPython ast", "IMAGE_SCN_MEM_WRITE = 0x80000000, PF_W = 2 (PE/EL
 
 
 def _flag_dependent(fn, access_node, flag_words, masks):
-    """Is the access expression assigned/augmented under a test of a header flag field with the write mask?"""
+    """Does the access value contain PAGE_WRITE only under a test of the header's flag field with the write mask?
+    Accepted: `acc |= PAGE_WRITE` / `acc = .. | PAGE_WRITE` inside an `if <flags & mask>`, or a conditional expression
+    `(.. | PAGE_WRITE) if <flags & mask> else <without PAGE_WRITE>`; the test may go through a local (`writable = flags & mask`)."""
+    from sa.astutil import Resolver
+    res = Resolver(fn)
+
+    def is_flag_test(t):
+        t = res.expand_node(t)
+        txt = norm(t)
+        if not any(w in txt for w in flag_words):
+            return False, False
+        for c in walk_local(t):
+            if isinstance(c, ast.BinOp) and isinstance(c.op, ast.BitAnd):
+                for side in (c.left, c.right):
+                    ok, v = const_value(side)
+                    if (ok and v in masks) or norm(side) in ("PF_W", "elf_csts.PF_W", "IMAGE_SCN_MEM_WRITE"):
+                        return True, True
+        return True, False
     if not isinstance(access_node, ast.Name):
-        return False, "access argument is the constant expression `%s`" % norm(access_node)
-    var = access_node.id
-    found = False
-    mask_ok = False
+        exprs = [access_node]
+        var = None
+    else:
+        var = access_node.id
+        exprs = []
+    found = mask_ok = False
+    unguarded = False
+    defs = []
     for n in walk_body(fn):
         if isinstance(n, (ast.Assign, ast.AugAssign)):
             tg = n.targets[0] if isinstance(n, ast.Assign) else n.target
-            if isinstance(tg, ast.Name) and tg.id == var and "PAGE_WRITE" in norm(n.value):
-                p = getattr(n, "_parent", None)
-                while p is not None and p is not fn:
-                    if isinstance(p, ast.If) and any(w in norm(p.test) for w in flag_words):
-                        found = True
-                        for c in walk_local(p.test):
-                            if isinstance(c, ast.BinOp) and isinstance(c.op, ast.BitAnd):
-                                for side in (c.left, c.right):
-                                    ok, v = const_value(side)
-                                    if (ok and v in masks) or norm(side) in ("PF_W", "elf_csts.PF_W", "IMAGE_SCN_MEM_WRITE"):
-                                        mask_ok = True
-                    p = getattr(p, "_parent", None)
+            if var is not None and isinstance(tg, ast.Name) and tg.id == var:
+                defs.append(n)
+    for n in defs:
+        v = n.value
+        if "PAGE_WRITE" not in norm(v):
+            continue
+        # conditional expression(s) inside the value
+        handled = False
+        for ife in [x for x in walk_local(v) if isinstance(x, ast.IfExp)]:
+            if "PAGE_WRITE" in norm(ife.body) and "PAGE_WRITE" not in norm(ife.orelse):
+                f, mk = is_flag_test(ife.test)
+                found, mask_ok, handled = found or f, mask_ok or mk, True
+            elif "PAGE_WRITE" in norm(ife.orelse) and "PAGE_WRITE" not in norm(ife.body):
+                t = ife.test
+                if isinstance(t, ast.UnaryOp) and isinstance(t.op, ast.Not):
+                    f, mk = is_flag_test(t.operand)
+                    found, mask_ok, handled = found or f, mask_ok or mk, True
+        if handled:
+            continue
+        p = getattr(n, "_parent", None)
+        guarded = False
+        while p is not None and p is not fn:
+            if isinstance(p, ast.If):
+                f, mk = is_flag_test(p.test)
+                if f:
+                    found, guarded = True, True
+                    mask_ok = mask_ok or mk
+            p = getattr(p, "_parent", None)
+        if not guarded:
+            unguarded = True
+    if var is None:
+        return False, "access argument is the constant expression `%s`" % norm(access_node)
+    if unguarded:
+        return False, "`%s` gains PAGE_WRITE outside any test of the header's flags" % var
     if not found:
         return False, "`%s` never gains PAGE_WRITE under a test of the header's flags" % var
     if not mask_ok:
@@ -143,16 +186,32 @@ def run(ck):
     ok = False
     for lp in [n for n in walk_body(fn) if isinstance(n, ast.For) and norm(n.iter) == "pe.SHList"]:
         body = ast.Module(body=lp.body, type_ignores=[])
-        pad = any(isinstance(n, ast.AugAssign) and norm(n.target) == "data" and norm(n.value).replace(" ", "") in
-                  ("b'\\x00'*(section.size-len(data))",) for n in walk_local(body))
-        src = any(isinstance(n, ast.Assign) and norm(n.targets[0]) == "data" and norm(n.value) == "bytes(section.data)" for n in walk_local(body))
-        addr = any(isinstance(n, ast.Assign) and norm(n.value) == "pe.rva2virt(section.addr)" for n in walk_local(body))
-        mp = [c for c in walk_local(body) if isinstance(c, ast.Call) and dotted(c.func) == "vm.add_memory_page"]
+        from sa.astutil import straightline_env, clone
+        from sa.normal import canon
+        mp = [c for c in walk_local(body) if isinstance(c, ast.Call) and dotted(c.func) == "vm.add_memory_page" and len(c.args) >= 3]
         if mp:
-            a0 = mp[0].args[0]
-            rr = Resolver(fn)
-            addr_ok = addr and isinstance(a0, ast.Name) and any(norm(d) == "pe.rva2virt(section.addr)" for d in rr.all_defs(a0.id))
-            ok = pad and src and addr_ok and norm(mp[0].args[2]) == "data"
+            st = mp[0]
+            while not isinstance(st, ast.stmt):
+                st = st._parent
+            env = straightline_env(lp.body[:lp.body.index(st)]) if st in lp.body else {}
+
+            class _T(ast.NodeTransformer):
+                def visit_Name(self, nm):
+                    if isinstance(nm.ctx, ast.Load) and nm.id in env:
+                        return env[nm.id]
+                    return nm
+            addr_x = _T().visit(clone(mp[0].args[0]))
+            data_x = _T().visit(clone(mp[0].args[2]))
+            raw = "bytes(section.data)"
+            want = ["BitOr", None]
+            cd = canon(data_x)
+            pads = ("Mult(b'\\x00', P[-1*len(%s) + 1*section.size])" % raw, "Mult(b'\\x00', P[1*section.size + -1*len(%s)])" % raw)
+            ok_data = isinstance(data_x, ast.BinOp) and isinstance(data_x.op, ast.Add) and norm(data_x.left) == raw and \
+                isinstance(data_x.right, ast.BinOp) and isinstance(data_x.right.op, ast.Mult) and \
+                any(isinstance(z, ast.Constant) and z.value == b"\x00" for z in (data_x.right.left, data_x.right.right)) and \
+                any(canon(z) in ("P[-1*len(%s) + section.size]" % raw, "P[section.size + -1*len(%s)]" % raw) or
+                    norm(z).replace(" ", "") == ("section.size-len(%s)" % raw).replace(" ", "") for z in (data_x.right.left, data_x.right.right))
+            ok = ok_data and norm(addr_x) == "pe.rva2virt(section.addr)"
     ck.ob("R3", "vm_load_pe:section-bytes", ok, pm.where(fn),
           "a section must be mapped at rva2virt(section.addr) with bytes(section.data) padded by zero bytes up to section.size")
     fn = em.func("vm_load_elf")
